@@ -12,10 +12,12 @@ Theorem matmap_vb M n k (a : arr Qc) : n = mat_cols M -> shp a = vb_shape n k ->
   matmap M a = Some (mkArr (vb_shape (length M) k)
                            (of_cols 0%Qc (length M) (map (qmatvec M) (cols_of 0%Qc n k (dat a))))).
 Proof.
-  intros Hn Hs Hl. unfold matmap. rewrite Hs. unfold vb_shape. destruct (k =? 1)%nat eqn:Ek.
-  - apply Nat.eqb_eq in Ek. subst k. rewrite Hn, Nat.eqb_refl. f_equal. f_equal.
-    unfold cols_of. cbn [seq map]. rewrite col_of_single by lia. rewrite of_cols_single by apply qmatvec_length. reflexivity.
-  - rewrite Hn, Nat.eqb_refl. rewrite <- Hn. reflexivity.
+  intros Hn Hs Hl. assert (En : (n =? mat_cols M)%nat = true) by (apply Nat.eqb_eq; exact Hn).
+  unfold matmap. rewrite Hs. unfold vb_shape. destruct (k =? 1)%nat eqn:Ek.
+  - apply Nat.eqb_eq in Ek. subst k. rewrite En. f_equal. f_equal.
+    assert (E : cols_of 0%Qc n 1 (dat a) = [dat a]) by (unfold cols_of; cbn [seq map]; rewrite col_of_single by lia; reflexivity).
+    rewrite E. cbn [map]. symmetry. apply of_cols_single. apply qmatvec_length.
+  - rewrite En. reflexivity.
 Qed.
 
 Lemma matmap_vec M (a : arr Qc) : shp a = [mat_cols M] -> matmap M a = Some (mkArr [length M] (qmatvec M (dat a))).
@@ -29,7 +31,7 @@ Theorem matmap_columnwise M n k (a : arr Qc) : n = mat_cols M -> shp a = [n; k] 
 Proof.
   intros Hn Hs.
   exists (mkArr [length M; k] (of_cols 0%Qc (length M) (map (qmatvec M) (cols_of 0%Qc n k (dat a))))).
-  split; [unfold matmap; rewrite Hs, Hn, Nat.eqb_refl, <- Hn; reflexivity|]. split; [reflexivity|]. cbn [dat].
+  split; [unfold matmap; rewrite Hs; replace (n =? mat_cols M)%nat with true by (symmetry; apply Nat.eqb_eq; exact Hn); reflexivity|]. split; [reflexivity|]. cbn [dat].
   split; [rewrite of_cols_length, map_length, cols_of_length; reflexivity|].
   intros j Hj. rewrite matmap_vec by (cbn [shp]; rewrite Hn; reflexivity). cbn [dat]. f_equal. f_equal.
   pose proof (col_of_of_cols 0%Qc (length M) (map (qmatvec M) (cols_of 0%Qc n k (dat a))) j) as E.
